@@ -64,7 +64,7 @@ def write_opens(f):
             out.append(("create", c, False, False))
         elif m(c, P_OPEN):
             # flags set on the builder chain that feeds this open
-            app = cn = wr = False
+            app = cn = wr = tr = False
             for o in f.normal_calls():
                 if o.static in (P_APPEND, P_CREATE_NEW, "std::fs::OpenOptions::write", "std::fs::OpenOptions::truncate", "std::fs::OpenOptions::create"):
                     cv = op_const(o.args[1]) if len(o.args) > 1 else None
@@ -74,10 +74,13 @@ def write_opens(f):
                             app = True
                         elif o.static == P_CREATE_NEW:
                             cn = True
+                        elif o.static == "std::fs::OpenOptions::truncate":
+                            tr = True
+                            wr = True
                         else:
                             wr = True
             if app or cn or wr:
-                out.append(("open", c, app, cn))
+                out.append(("open" if (tr or app or cn) else "open-no-truncate", c, app, cn))
     return out
 
 
@@ -113,6 +116,8 @@ def check_atomic_replace(F, ctx, name, prop):
     if not wo:
         raise CheckError("%s: no write-open found (anchor changed)" % name)
     for (kind, w, app, cn) in wo:
+        if kind == "open-no-truncate":
+            problems.append(("temp-not-truncated", "the temp file is opened for writing without truncate(true): a longer stale temp file left by a crash keeps its tail, and the mixed file is renamed over the live one", w.where()))
         if cn:
             problems.append(("temp-create-new", "the temp file is opened with create_new(true): a stale temp file left by a crash makes every later save (and recovery's WAL drain) fail with AlreadyExists", w.where()))
     if not ren:
